@@ -338,6 +338,16 @@ type ScrOp struct {
 // DrawScramble draws 0..3 operations.
 func DrawScramble(t *rapid.T, fs *FrameSpec) Scramble { return drawScramble(t, fs, 5) }
 
+// DrawScrambleOrEmpty is DrawScramble that now and then ends in
+// GroupBy().Aggregate() - a frame of one row and no columns.
+func DrawScrambleOrEmpty(t *rapid.T, fs *FrameSpec) Scramble {
+	s := drawScramble(t, fs, 5)
+	if Rare(t, "nocolumns", 300) {
+		s.Ops = append(s.Ops, ScrOp{Kind: "nocolumns"})
+	}
+	return s
+}
+
 // DrawIndexScramble draws index-changing operations only (the columns stay as generated).
 func DrawIndexScramble(t *rapid.T, fs *FrameSpec) Scramble { return drawScramble(t, fs, 2) }
 
@@ -387,6 +397,10 @@ func (s Scramble) Apply(qf qframe.QFrame) qframe.QFrame {
 				b = a
 			}
 			qf = qf.Slice(a, b)
+		case "nocolumns":
+			if qf.Len() > 0 {
+				qf = qf.GroupBy().Aggregate()
+			}
 		case "agg":
 			qf = applyAgg(qf, op)
 		case "select":
